@@ -59,6 +59,8 @@ type posRunner struct {
 	anyOK      bool
 	setChanged bool
 	outcome    []string
+	minStake0  int64               // the minimum stake at the start of the history
+	minChanged bool                // governance has changed it since
 	qAwards    map[string]*big.Int // the model's own award and burn queues (see model())
 	qBurns     map[string]*big.Int
 	inPrelude  bool
@@ -297,7 +299,15 @@ func (r *posRunner) invariants(call string, v chain.View, notes []string) {
 					r.report("C06", fmt.Sprintf("inv:unstaking-not-queued|%s|%s", call, ns), fmt.Sprintf("after %s at height %d: unstaking validator key%d is not queued at its completion time %s", call, r.height, vv.Key, vv.UnstakeAt))
 				}
 			}
-			if vv.Status != 255 && vv.Status != sdk.Unstaked && vv.Stake.LT(sdk.NewInt(min)) {
+			// "(while the minimum-stake parameter is unchanged)": suspended for the rest of a history once
+			// governance has moved the minimum
+			if r.minStake0 == 0 {
+				r.minStake0 = min
+			}
+			if min != r.minStake0 {
+				r.minChanged = true
+			}
+			if !r.minChanged && vv.Status != 255 && vv.Status != sdk.Unstaked && vv.Stake.LT(sdk.NewInt(min)) {
 				r.report("C06", fmt.Sprintf("inv:below-minimum|%s|%s", call, ns), fmt.Sprintf("after %s at height %d: validator key%d is %s with stake %s below the minimum %d", call, r.height, vv.Key, vv.Status, vv.Stake, min))
 			}
 		}
